@@ -29,4 +29,10 @@ theorem timeSites : Gen.Contract.timeSites = Model.Contract.timeSites := rfl
 theorem check_time_information (a b c d e f : Int) :
     Gen.Contract.check_time_information a b c d e f = checkTime a b c d e f := rfl
 
+/-- only the missing time arrays are inferred; a given one is passed through untouched -/
+theorem infer_time (a b c : Int) (x y z : Option Int) :
+    Gen.Contract.infer_time a b c x y z =
+      (some (inferTime a b c x y z).1, some (inferTime a b c x y z).2.1, some (inferTime a b c x y z).2.2) := by
+  cases x <;> cases y <;> cases z <;> rfl
+
 end Lemmas.GenContract
